@@ -37,6 +37,8 @@ def classify_hfail(line):
         return "root-namespace-editable"
     if kind == "reload-content-differs:string-blank-or-empty":
         return "string-blank-or-empty"
+    if kind == "reload-content-differs:adjacent-text-merged" and "adjacent-text-items" in causes:
+        return "adjacent-text-items-merge"
     if kind == "warning:LOAD-ERROR:OverlappingDataError" and "duplicate-path" in causes:
         return "duplicate-path-unloadable"
     if kind in VERSION_FAILS and "mixed-version-files" in causes:
@@ -326,6 +328,60 @@ def xattach(ctx, avh, tier, prop_fail, known_hits):
                           % (re.search(r" v=(\d+) ", l).group(1), " ".join(l.split()[1:8]))})
 
 
+def classify_xver(line):
+    """XVER line of `avh range xver` -> key of the known finding that explains it, or None"""
+    f = dict(x.split("=", 1) for x in line.split()[1:] if "=" in x and not x.startswith(("reload", "cause")))
+    sig = line.replace(" FIRST", "").split()[-1]
+    parts = sig.split(";")
+    causes = [p for p in parts if p.startswith("cause:")]
+    probs = [p for p in parts if not p.startswith("cause:")]
+    if not probs or not all(p.startswith("reload-warning:") or p.startswith("reload-content-differs") for p in probs):
+        return None
+    # a nested element built where its type has no SHORT-NAME, copied into a version where the type is identifiable
+    if "cause:named-without-short-name" in causes and probs == ["reload-warning:RequiredSubelementMissing"]:
+        return "copy-unnamed-into-named-version"
+    # C13's class: an enumeration value as ELEMENT TEXT is copied unchecked
+    if f.get("item", "").startswith("cdenum:") and f.get("inside") == "0" and probs == ["reload-warning:EnumItemVersionError"]:
+        return "copy-enum-text-unfiltered"
+    if "cause:stored-type-mismatch" in causes:
+        return "copy-keeps-source-type"
+    return None
+
+
+def xver(ctx, avh, tier, prop_fail, known_hits):
+    """version-dependent content (attributes, enumeration values, sub-elements with a partial version mask) copied across versions"""
+    t0 = time.time()
+    res = par([[avh, "range", "xver", DUMP, tier, str(i), str(NSHARDS)] for i in range(NSHARDS)], timeout=3000)
+    lines, stats = [], []
+    for rc, out, _ in res:
+        lines += [l for l in out.split("\n") if l.startswith("XVER ")]
+        stats += [l for l in out.split("\n") if l.startswith("STAT xver")]
+    tot = {}
+    for l in stats:
+        for k, v in re.findall(r"(\w+)=(\d+)", l):
+            tot[k] = int(v) if k == "items" else tot.get(k, 0) + int(v)
+    ctx.log("cross-version content sweep: %s in %.0fs" % (tot, time.time() - t0))
+    ctx.coverage["cross_version_content_sweep"] = tot
+    ctx.coverage["evaluations"] += tot.get("combinations", 0)
+    other = []
+    for l in lines:
+        key = classify_xver(l)
+        if key:
+            known_hits.setdefault(key, []).append(l)
+        else:
+            other.append(l)
+    done = all(rc == 0 for rc, _, _ in res) and len(stats) == NSHARDS and tot.get("copied", 0) > 0
+    ctx.oblige("oracle:cross-version content sweep(every datatype x every attribute / enumeration value of an attribute / enumeration value as text / sub-element "
+               "with a partial version mask: built in the oldest and newest version inside the mask, copied with create_copied_sub_element[_at] into files of versions "
+               "outside and inside the mask, older->newer and newer->older: the target file re-loads with only RequiredAttributeMissing and the same content; "
+               "only the recorded findings)", done and not other, "\n".join(other[:3]) or "sweep incomplete")
+    for l in other[:5]:
+        dt = re.search(r" dt=(\d+) ", l).group(1)
+        prop_fail.append({"kind": "xver", "line": l,
+                          "how_to_replay": "./check C07 --replay <this file>   (= harness/target/debug/avh range xver work/c07/dump thorough 0 1 %s | grep '%s'; "
+                                           "AVH_RANGE_SHOW=1 prints the text of the target file)" % (dt, " ".join(l.split()[1:8]))})
+
+
 def known_findings(ctx, avh, prop_fail, known_hits):
     xc = None
     for e in lib.load_known("C07"):
@@ -410,6 +466,7 @@ def run(tier, seed):
         sweep(ctx, avh, avm, tier, prop_fail)
         histories(ctx, avh, avm_tree, tier, seed, prop_fail, known_hits)
         xattach(ctx, avh, tier, prop_fail, known_hits)
+        xver(ctx, avh, tier, prop_fail, known_hits)
         known_findings(ctx, avh, prop_fail, known_hits)
 
     if ctx.broken:
@@ -505,6 +562,17 @@ def replay(path):
             if not res.get(exp["step"], "?").startswith(exp["result"]):
                 bad.append("step %d gives %s, expected %s" % (exp["step"], res.get(exp["step"]), exp["result"]))
             bad += [l for l in out.split("\n") if l.startswith("HFAIL ")]
+        print("REPLAY %s" % ("FAILS (property violated on this input)" if bad else "passes / only recorded findings"))
+        return 1 if bad else 0
+    if r.get("kind") == "xver":
+        want = " ".join(r["line"].split()[1:8])
+        dt = re.search(r" dt=(\d+) ", r["line"]).group(1)
+        rc, out, _ = lib.run([avh, "range", "xver", DUMP, "thorough", "0", "1", dt], cwd=CW, timeout=3000, env={"AVH_RANGE_SHOW": "1"})
+        L = out.split("\n")
+        hit = [k for k, l in enumerate(L) if l.startswith("XVER ") and want in l]
+        for k in hit[:2]:
+            print("\n".join(L[max(0, k - 1):k + 1])[:3000])
+        bad = [L[k] for k in hit if classify_xver(L[k]) is None]
         print("REPLAY %s" % ("FAILS (property violated on this input)" if bad else "passes / only recorded findings"))
         return 1 if bad else 0
     if r.get("kind") == "xattach":
